@@ -250,7 +250,7 @@ def judge_cell(cell, test_msg, t_arrival, reacts, ead, rep, case, witness):
             rep.violation("table/%s/wrong-time" % key, "reaction at the wrong virtual time (piggyback before EMPTY_ACK_DELAY / empty ACK exactly at it / response at handler completion)", witness(observed=obs, expected=repr(exp)), case)
         elif code is not None and o[2] != code:
             rep.violation("table/%s/wrong-code" % key, "reaction carries the wrong code", witness(observed=obs, expected=repr(exp)), case)
-        elif o[3] != midrel:
+        elif midrel == "same" and o[3] != midrel:  # a "fresh" ID is the node's own choice and may coincide with the request's
             rep.violation("table/%s/wrong-mid" % key, "reaction uses the wrong message ID (same vs fresh)", witness(observed=obs, expected=repr(exp)), case)
         elif o[4] != tok:
             rep.violation("table/%s/wrong-token" % key, "reaction carries the wrong token", witness(observed=obs, expected=repr(exp)), case)
